@@ -22,6 +22,8 @@ pub enum AOp {
     WorldRef,
     WorldMut,
     OpenGate,
+    /// the first thread-local system panics inside its next run; the wait() that runs it is caught and the dispatcher used on
+    ArmPanic,
 }
 
 #[derive(Clone, Debug, PartialEq)]
@@ -51,6 +53,7 @@ impl ACase {
                 "WorldRef" => AOp::WorldRef,
                 "WorldMut" => AOp::WorldMut,
                 "OpenGate" => AOp::OpenGate,
+                "ArmPanic" => AOp::ArmPanic,
                 o => return Err(format!("unknown async op {}", o)),
             });
         }
@@ -68,7 +71,8 @@ pub fn generate(rng: &mut Rng) -> ACase {
     let n = 2 + rng.below(6);
     let mut ops = vec![];
     for _ in 0..n {
-        ops.push(match rng.below(10) {
+        ops.push(match rng.below(11) {
+            10 => AOp::ArmPanic,
             0 | 1 | 2 => AOp::Dispatch,
             3 | 4 => AOp::Running,
             5 => AOp::Wait,
@@ -124,12 +128,18 @@ fn run_inner(case: &ACase, counts_only: bool) -> Option<String> {
     ctx.gate_ms.store(40, Ordering::SeqCst);
     let mut dispatched = 0usize; // dispatch() calls so far
     let mut tl_runs = 0usize; // wait() calls so far
+    let mut tl_exp: std::collections::HashMap<usize, usize> = tls.iter().map(|u| (*u, 0usize)).collect(); // expected runs per thread-local system
     let mut all: Vec<crate::real::Ev> = vec![];
     let count = |evs: &[crate::real::Ev], k: EvK, uids: &[usize]| evs.iter().filter(|e| e.k == k && uids.contains(&e.uid)).count();
     for (i, op) in case.ops.iter().enumerate() {
         let what = format!("call {} ({:?})", i, op);
         match op {
             AOp::OpenGate => ctx.gate_open.store(true, Ordering::SeqCst),
+            AOp::ArmPanic => {
+                if let Some(u) = tls.first() {
+                    ctx.panic_uid.store(*u, Ordering::SeqCst);
+                }
+            }
             AOp::Dispatch => {
                 ctx.gate_open.store(false, Ordering::SeqCst);
                 d.dispatch();
@@ -147,7 +157,7 @@ fn run_inner(case: &ACase, counts_only: bool) -> Option<String> {
                 if exits < staged.len() * (dispatched - 1) {
                     return Some(format!("{}: returned while systems of the previous dispatch were still unfinished ({} of {} finished)", what, exits, staged.len() * (dispatched - 1)));
                 }
-                if count(&all, EvK::Enter, &tls) != tls.len() * tl_runs {
+                if count(&all, EvK::Enter, &tls) != tl_exp.values().sum::<usize>() {
                     return Some(format!("{}: a thread-local system ran inside dispatch (thread-local systems run only inside wait)", what));
                 }
             }
@@ -185,8 +195,28 @@ fn run_inner(case: &ACase, counts_only: bool) -> Option<String> {
             AOp::Wait | AOp::WaitNoTl | AOp::WorldRef | AOp::WorldMut => {
                 match op {
                     AOp::Wait => {
-                        d.wait();
+                        let armed = ctx.panic_uid.load(Ordering::SeqCst);
+                        let r = catch_unwind(AssertUnwindSafe(|| d.wait()));
                         tl_runs += 1;
+                        match r {
+                            Ok(()) => {
+                                ctx.panic_uid.store(crate::real::NONE, Ordering::SeqCst);
+                                tls.iter().for_each(|u| *tl_exp.get_mut(u).unwrap() += 1);
+                            }
+                            Err(p) => {
+                                if armed == crate::real::NONE || ctx.panic_uid.load(Ordering::SeqCst) != crate::real::NONE {
+                                    std::panic::resume_unwind(p);
+                                }
+                                // the armed system panicked inside this wait (caught by the caller, who keeps using the dispatcher):
+                                // the thread-local systems in front of it and it itself were started
+                                for u in &tls {
+                                    *tl_exp.get_mut(u).unwrap() += 1;
+                                    if *u == armed {
+                                        break;
+                                    }
+                                }
+                            }
+                        }
                     }
                     AOp::WaitNoTl => d.wait_without_tl(),
                     AOp::WorldRef => {
@@ -208,8 +238,8 @@ fn run_inner(case: &ACase, counts_only: bool) -> Option<String> {
                     return Some(format!("{}: running() is true right after it returned", what));
                 }
                 let tl_enters = count(&all, EvK::Enter, &tls);
-                if tl_enters != tls.len() * tl_runs {
-                    return Some(format!("{}: thread-local systems have run {} times in total, {} wait() calls of {} thread-local systems were made", what, tl_enters, tl_runs, tls.len()));
+                if tl_enters != tl_exp.values().sum::<usize>() {
+                    return Some(format!("{}: thread-local systems have run {} times in total, {} wait() calls of {} thread-local systems were made ({} runs expected)", what, tl_enters, tl_runs, tls.len(), tl_exp.values().sum::<usize>()));
                 }
                 if let Some(e) = all.iter().find(|e| tls.contains(&e.uid) && e.k == EvK::Enter && e.thread != me) {
                     return Some(format!("{}: thread-local system #{} ran on {:?}, not on the calling thread", what, e.uid, e.thread));
@@ -226,8 +256,9 @@ fn run_inner(case: &ACase, counts_only: bool) -> Option<String> {
     }
     for &u in &tls {
         let n = all.iter().filter(|e| e.uid == u && e.k == EvK::Enter).count();
-        if n != tl_runs {
-            return Some(format!("async dispatcher: thread-local system #{} ran {} times over {} wait() calls", u, n, tl_runs));
+        if n != tl_exp[&u] {
+            return Some(format!("async dispatcher: thread-local system #{} ran {} times over {} wait() calls, {} expected{}", u, n, tl_runs, tl_exp[&u],
+                if case.ops.contains(&AOp::ArmPanic) { " (one wait() was left by a panic of a thread-local system, caught by the caller)" } else { "" }));
         }
     }
     if counts_only {
